@@ -14,7 +14,7 @@
    panics of ReturnLifetimeLowerer::lower_lifetime ("nothing to borrow from" / "source of elision is ambiguous"). *)
 From Coq Require Import List Arith Bool.
 Import ListNotations.
-From DV Require Import Lifetimes.Model Lifetimes.Check.
+From DV Require Import gen.Tables Lifetimes.Model Lifetimes.Check.
 
 Inductive alt := AStatic | ANamed (i : nat) | AAnon.
 
@@ -34,15 +34,10 @@ Inductive sself :=
 
 Record ssig := mkSSig { s_n : nat; s_decl : list (nat * list nat); s_self : sself; s_params : list sty; s_ret : list sty }.
 
-Inductive esrc := NoBorrows | SelfParam (l : lt) | OneParam (l : lt) | Multiple.
-
-Definition visit (e : esrc) (l : lt) : esrc :=
-  match e with
-  | NoBorrows => OneParam l
-  | SelfParam s => SelfParam s
-  | OneParam _ => Multiple
-  | Multiple => Multiple
-  end.
+(* ElisionSource and its transition function are regenerated from elision.rs on every run (gen/Tables.v, Tie A):
+   NoBorrows | SelfParam l | OneParam l | Multiple;  visit_of;  ret_anon_of (the Anonymous arm of the return phase) *)
+Definition esrc := esrc_of lt.
+Definition visit : esrc -> lt -> esrc := visit_of.
 
 (* BaseLifetimeLowerer (the nodes never change after construction) + the ElisionSource next to it *)
 Record st := mkSt { src : esrc; cache : option (list lt); num : nat }.
@@ -120,10 +115,7 @@ Definition ret_lower (s : st) (l : alt) : option lt :=
   match l with
   | AStatic => Some Static
   | ANamed i => Some (Lt i)
-  | AAnon => match src s with
-             | SelfParam h | OneParam h => Some h
-             | NoBorrows | Multiple => None
-             end
+  | AAnon => ret_anon_of (src s)
   end.
 
 Fixpoint map_opt {A B} (f : A -> option B) (l : list A) : option (list B) :=
